@@ -180,7 +180,7 @@ func runC17Listener(c *kernel.Ctx) {
 	if started {
 		nw := t.Range(0, 40)
 		for i := 0; i < nw; i++ {
-			chunk := genStream(c, 3000)
+			chunk := genStream(c, 9000)
 			if len(chunk) == 0 {
 				continue
 			}
